@@ -476,6 +476,7 @@ def check_C10(F, tier, t0):
     guarded(R, 'X12', engine_x.rule_X12, F, R)
     guarded(R, 'X12 header', engine_x.rule_X12_header, F, R)
     guarded(R, 'X4 header call', engine_x.rule_X4_header_call, F, R)
+    guarded(R, 'X4 flags', engine_x.rule_X4_flags, F, R)
     # the header is free_vars: it is right only if the free-variable analysis is
     E = make_engine(F)
     guarded(R, 'S var_is_free', run_S, R, E, [FRF], spec_bdd.B, False)
@@ -718,6 +719,7 @@ def check_C16(F, tier, t0):
     guarded(R, 'X8 writer choice', engine_x.rule_X8_writer_choice, F, R, 'max_clique_gen')
     guarded(R, 'X8 reader choice', engine_x.rule_X8_reader_choice, F, R, 'max_clique_gen')
     guarded(R, 'L csv', engine_l.rule_csv_records, F, R, 'max_clique_gen')
+    guarded(R, 'L complete walks', engine_l.rule_complete_walks, F, R, 'max_clique_gen', ('max_clique_gen::main',))
     guarded(R, 'no early return', engine_x.rule_no_early_return, F, R, 'max_clique_gen')
     guarded(R, 'L remarks', engine_l.rule_comment_holes, F, R, 'max_clique_gen')
     front_end(R, F)       # the emitted text means what the language's tokenizer and operator tables say it means
@@ -742,6 +744,7 @@ def check_C18(F, tier, t0):
     guarded(R, 'X8 flush', engine_x.rule_X8_flush, F, R, 'random_graph_gen')
     guarded(R, 'X8 writer choice', engine_x.rule_X8_writer_choice, F, R, 'random_graph_gen')
     guarded(R, 'L csv', engine_l.rule_csv_records, F, R, 'random_graph_gen')
+    guarded(R, 'L complete walks', engine_l.rule_complete_walks, F, R, 'random_graph_gen', ('random_graph_gen::generate_graph', 'random_graph_gen::augment_colors', 'random_graph_gen::read_graph', 'random_graph_gen::main'))
     guarded(R, 'X8 order', engine_x.rule_X8_after_input, F, R, 'random_graph_gen', ('random_graph_gen::read_graph', 'random_graph_gen::generate_graph', 'random_graph_gen::augment_colors'))
     R.floor('L:refuse-not-truncate', 1); R.floor('L:candidate-push-sites', 1); R.floor('L:complete-count', 1); R.floor('L:truth-table-rows', 22); R.floor('L:edge-writer-sites', 3)
     return finish(R, 'other', tier, t0,
